@@ -13,6 +13,7 @@ import (
 	"verifharness/drv/hb"
 	"verifharness/drv/pk"
 	"verifharness/drv/re"
+	"verifharness/drv/rt"
 	"verifharness/drv/sy"
 	"verifharness/drv/ts"
 )
@@ -45,6 +46,8 @@ func main() {
 		os.Exit(pk.Main(os.Args[2:]))
 	case "ec":
 		os.Exit(ec.Main(os.Args[2:]))
+	case "rt":
+		os.Exit(rt.Main(os.Args[2:]))
 	case "hb":
 		os.Exit(hb.Main(os.Args[2:]))
 	default:
